@@ -45,7 +45,7 @@ def check(run, args):
     run.distinct += st["stats"].get("histories_with_4plus_ops", 0)
     run.rule += ("histories = every behaviour of JenHeap within the bounds that ends in an append or clone (exported by TLC) plus seeded "
                 "random histories with longer appends; after every operation every live statement is rendered; non-trivial = distinct histories with >= 4 operations")
-    run.samples += st.get("samples", [])
+    run.samples += (st.get("samples") or [])
     run.cov.setdefault("harness_stats", []).append(st["stats"])
     run.assumptions += ["a statement's token list is read from a NoFormat render of a File that contains only that statement"]
     return run.finish(viols)
